@@ -903,8 +903,14 @@ class FortranReaderBase:
                 # The included text takes the place of the INCLUDE line and
                 # so is in the source form of the including source.
                 self.reader.set_format(self.format)
-                result = self.reader.next(ignore_comments=ignore_comments)
-                return result
+                try:
+                    return self.reader.next(ignore_comments=ignore_comments)
+                except StopIteration:
+                    # The included file delivers nothing (it is empty or
+                    # holds only comments that are ignored): carry on with
+                    # the line after the INCLUDE line.
+                    self.reader = None
+                    return self.next(ignore_comments=ignore_comments)
             return item
         except StopIteration:
             raise
